@@ -23,14 +23,26 @@ Correspondence: the observed action skeleton of runs A and B (passes with their 
 submissions, expression evaluations, source changes) is replayed on QtVerif.Model.Faults through Driver/C15.lean; compared per action: heart
 beats and reads (port, outcome) in order, events per handler, write value/outcome/result, and at the end of every
 tick: last value and call counters of every port.
-Timing is outside the statement (DESIGN §6 C15 R): drivers have zero latency, healthy source values change at tick
-boundaries only, expressions are time-independent.
+Timing is outside the statement (DESIGN §6 C15 R): in the cases above drivers have zero latency, healthy source values
+change at tick boundaries only, expressions are time-independent.
+
+Failing calls that TAKE TIME (every 11th generated case + witnesses in the corpus; harness/slow_c15.py): the failing
+read / write of a faulty port awaits its device for 0 / a few ms / several ticks / more than 100 ticks / seconds of
+virtual time before it raises (or reports SkipRead), under the real `update_loop`, with healthy ports registered before
+and after the faulty one and `patch_port_value` requests and source changes landing inside and outside the stalled
+pass. Runs A and B only. One sequential pass legitimately delays the other ports by the time the failing reads take;
+the oracle demands exactly what the unchanged hub guarantees (argument in harness/slow_c15.py): the healthy ports'
+event sequences, driver writes, API answers (204 vs 202) and final values equal those of run B; no healthy port goes
+unpolled for longer than one tick + the failing reads of one pass; every event is late by at most one tick + twice
+that; the faulty port keeps its last good value, is not retried before the interval and is retried after it. The model
+has no durations: for these cases only run B is replayed on it (the rest is oracle-only).
 """
 import asyncio
 import logging
 
-from harness import vloop
+from harness import slow_c15, vloop
 from harness.core import Failure, Prop
+from harness.slow_c15 import out_dur
 
 EXC_NAMES = ['PortError', 'PortTimeout', 'PortReadError', 'InvalidAttributeValue', 'OSError', 'ValueError',
              'TimeoutError', 'KeyError', 'RuntimeError', 'AttributeError', 'ZeroDivisionError', 'StopIteration',
@@ -60,7 +72,7 @@ def out_class(out):
     """script outcome -> model token"""
     if out == 'ok' or out is None:
         return 'ok'
-    if out == 'skip':
+    if out == 'skip' or out[0] == 'skip':
         return 'skip'
     if out[0] == 'raise':
         return 'raise'
@@ -83,10 +95,16 @@ class FakeHandler:
     request = FakeReq()
 
 
+def _retry_interval():
+    from qtoggleserver.core import main as core_main
+    return core_main._PORT_READ_ERROR_RETRY_INTERVAL
+
+
 class C15(Prop):
     ID = 'C15'
-    N_QUICK = 3000
-    N_THOROUGH = 24000
+    N_QUICK = 3300            # every 11th generated case is a slow-failure case (harness/slow_c15.py)
+    N_THOROUGH = 26400
+    SLOW_EVERY = 11
     CASE_TIMEOUT = 120
     RULE = ('random hubs of 2-8 ports in random registry order (healthy/faulty x source/register/expression port, some '
             'disabled), healthy expression ports over healthy ports only, faulty ones over anything; per-call outcome '
@@ -98,10 +116,19 @@ class C15(Prop):
             'inside the back-off window; tick interval 125 ms - 4 s so that the 10 s retry interval is crossed (incl. the exact boundary); '
             'each case = 3 real runs (faults / faulty ports absent / never failing) + 2 model replays. Non-trivial: at '
             'least one fault happened AND a healthy port changed value; distinct = distinct healthy event history + '
-            'fault kinds')
+            'fault kinds. Every 11th case (tags slow:*): 3-7 ports under the real update_loop (tick 125/250 ms), healthy '
+            'ports before and after the faulty one, whose failing reads/writes take 0 / 1-60 ms / 2-12 ticks / seconds / '
+            '100-130 ticks (incl. 100 ticks + 1 ms, 101 ticks) of virtual time before raising one of the 16 types or '
+            'reporting SkipRead (always / bursts / every pass slow / flapping); 2-6 stimuli of the healthy ports (source '
+            'change, patch_port_value with a fresh value), the first one often aimed into the first stalled pass, the '
+            'others at random phases (inside and outside a failing read: tags slow:api-inside/outside-failing-read), G '
+            'ticks apart (G from the case: harness/slow_c15.params); API writes to faulty registers whose writes fail '
+            'slowly; 2 real runs (faults / faulty ports absent) + 1 model replay')
     CORRESPONDENCE = ('Faults.step (pass = pollAll/pollPort/errContains/deliver/pushEvals, evalPort, writePort) <-> '
                       'core.main.update/update_loop/handle_value_changes, utils.timedset.TimedSet, '
-                      'core.events.handlers.trigger, core.ports._eval_loop/_write_value_loop')
+                      'core.events.handlers.trigger, core.ports._eval_loop/_write_value_loop; slow-failure cases (tags '
+                      'slow:*): the model has no durations, only the reference run (faulty ports absent) is replayed on it, '
+                      'the run with the slow faults is judged by the oracle alone')
     TRUSTED = ['instrumented Port subclasses (zero latency, register semantics) and the virtual-time loop',
                'pass boundaries reconstructed from the order of driver calls (strictly increasing registry index within '
                'one pass); the position of each expression evaluation is observed through the public '
@@ -110,6 +137,12 @@ class C15(Prop):
                    'boundaries only, time-independent expressions; the extra polling passes a faulty port\'s writes '
                    'cause are then unobservable on the healthy ports (proved for the model under the stability hypothesis: '
                    'noninterference_full_under_stability; checked here on the real hub)',
+                   'slow-failure cases: a failing read that takes time delays the rest of its (sequential) pass by that '
+                   'time on the unchanged hub; "exactly as if absent" is therefore checked as: same event sequences, '
+                   'driver writes, API answers and final values of the healthy ports, polling gap <= tick + Dmax, event '
+                   'delay <= tick + 2*Dmax (Dmax = failing-read time of one pass), with the healthy stimuli far enough '
+                   'apart for the hub to settle in between (oracle-only; heart_beat_second is synchronous and cannot '
+                   'take loop time, its faults stay instantaneous)',
                    'faults are Exception subclasses (what "raises errors" means); BaseException/CancelledError from a '
                    'driver is outside the property (the model shows it does interfere)',
                    'drivers raising from attribute getters, returning non-numeric garbage, queue overflow: outside']
@@ -165,6 +198,8 @@ class C15(Prop):
                 self.vx_live = False
                 self.vx_script = {'r': {}, 'h': {}, 'w': {}}
                 self.vx_reads = []          # (time, outcome token, returned value) of the live phase
+                self.vx_tail = {}           # kind -> (first call index, outcome): every later call not in the script
+                self.vx_spans = []          # (kind, start, end, outcome | 'cancelled') of the calls that took time
 
             def vx_value(self):
                 if self.vx_spec['kind'] == 'src' and self.vx_live:
@@ -176,7 +211,23 @@ class C15(Prop):
             def vx_out(self, kind):
                 i = self.vx_n[kind]
                 self.vx_n[kind] += 1
-                return self.vx_script[kind].get(i, 'ok')
+                out = self.vx_script[kind].get(i)
+                if out is None:
+                    tail = self.vx_tail.get(kind)
+                    out = tail[1] if tail and i >= tail[0] else 'ok'
+                return out
+
+            async def vx_wait(self, kind, out, cls):
+                # the device is slow to fail: the call suspends for a while (virtual time) before it raises / skips
+                d = out_dur(out)
+                if d > 0:
+                    start = owner.loop.time()
+                    try:
+                        await asyncio.sleep(d)
+                    except BaseException:
+                        self.vx_spans.append((kind, start, owner.loop.time(), 'cancelled'))
+                        raise
+                    self.vx_spans.append((kind, start, owner.loop.time(), cls))
 
             async def read_value(self):
                 if not self.vx_live:
@@ -184,12 +235,15 @@ class C15(Prop):
                 out = self.vx_out('r')
                 value = self.vx_value()
                 now = owner.loop.time()
-                owner.rec.append(('r', self.vx_idx, out_class(out), now))
-                if out == 'skip':
+                cls = out_class(out)
+                owner.rec.append(('r', self.vx_idx, cls, now))
+                if cls == 'skip':
                     self.vx_reads.append((now, 'skip', None))
+                    await self.vx_wait('r', out, cls)
                     raise core_ports.SkipRead()
-                if out != 'ok' and out[0] == 'raise':
+                if cls == 'raise':
                     self.vx_reads.append((now, 'raise', None))
+                    await self.vx_wait('r', out, cls)
                     raise excs[out[1]]()
                 if out != 'ok' and out[0] == 'val':
                     value = out[1]
@@ -203,6 +257,7 @@ class C15(Prop):
                 out = self.vx_out('w')
                 owner.rec.append(('w', self.vx_idx, canon(value), out_class(out), owner.loop.time()))
                 if out != 'ok':
+                    await self.vx_wait('w', out, 'raise')
                     raise excs[out[1]]()
                 self.vx_reg = value
 
@@ -237,7 +292,7 @@ class C15(Prop):
                 if idx is None:
                     return
                 if not self.vx_faf:
-                    owner.rec.append(('ev', self.vx_idx, idx, canon(event.old_value), canon(event.new_value)))
+                    owner.rec.append(('ev', self.vx_idx, idx, canon(event.old_value), canon(event.new_value), owner.loop.time()))
                 if self.vx_idx == 0 and event.new_value is not None:
                     # automation rules: a synchronous handler mirrors a source to an actuator and copes with write errors
                     for src, dst in owner.rules:
@@ -334,9 +389,15 @@ class C15(Prop):
             P('src', False, vals=[3, 3, 4, 4, 5, 5, 6, 6]), P('reg', False, v0=0), P('der', False, deps=[0, 3], c=100), P('reg', False, v0=7)],
             'ops': {'2': [['api', 5, 21]], '4': [['api', 5, 41]], '6': [['api', 5, 61]]}, 'hraise': {},
             'rules': [[0, 1], [2, 3]]})
+        # 9. failing calls that take time before they fail (device time-outs), real update_loop: see harness/slow_c15.py
+        cases.extend(slow_c15.corpus(_retry_interval()))
         return cases
 
     def gen(self, rng, tier):
+        # every SLOW_EVERY-th case: a faulty driver whose failing calls take time, under the real update_loop
+        self._ngen = getattr(self, '_ngen', 0) + 1
+        if self._ngen % self.SLOW_EVERY == 0:
+            return slow_c15.gen(rng, tier, self.retry, EXC_NAMES)
         big = tier != 'quick'
         tick = rng.choice(TICKS_MS + [1000, 2000])
         T = tick / 1000
@@ -472,6 +533,9 @@ class C15(Prop):
 
     def shrink_candidates(self, case):
         import copy
+        if case.get('slow'):
+            yield from self._shrink_slow(case)
+            return
         ports = case['ports']
         # fewer ticks
         for nt in (case['nticks'] // 2, case['nticks'] - 1):
@@ -621,6 +685,7 @@ class C15(Prop):
                     port.vx_script = {'r': {int(k): v for k, v in specs[i]['rd'].items()},
                                       'h': {int(k): v for k, v in specs[i]['hb'].items()},
                                       'w': {int(k): v for k, v in specs[i]['wr'].items()}}
+                    port.vx_tail = {k: (int(v[0]), v[1]) for k, v in specs[i].get('tail', {}).items()}
             if mode == 'A':
                 self.h_raise = {int(h): {int(i): t for i, t in m.items()} for h, m in case['hraise'].items()}
             self.active = True
@@ -657,7 +722,7 @@ class C15(Prop):
                         continue
                     self.rec.append(('api', req, pi, v))
                     task = asyncio.ensure_future(self.api_ports.patch_port_value(FakeHandler(), f'p{pi}', v))
-                    task.add_done_callback(lambda t, req=req: self.rec.append(('apires', req, self._api_result(t))))
+                    task.add_done_callback(lambda t, req=req: self.rec.append(('apires', req, self._api_result(t), self.loop.time())))
                     tasks.append((req, pi, task))
                     for _ in range(60):
                         await asyncio.sleep(0)
@@ -679,6 +744,8 @@ class C15(Prop):
                 else:
                     res['api'][req] = (pi, self._api_result(task))
             res['reads'] = {i: list(port.vx_reads) for i, port in allports.items()}
+            res['spans'] = {i: list(port.vx_spans) for i, port in allports.items()}
+            res['end'] = self.loop.time()
         finally:
             self.active = False
             try:
@@ -1043,7 +1110,96 @@ class C15(Prop):
         return None
 
     # ------------------------------------------------------------------------------------------ one case
+    def _shrink_slow(self, case):
+        """Smaller slow cases that still satisfy the spacing the oracle's argument needs (slow_c15.valid)."""
+        import copy
+        cands = []
+        st = slow_c15.stimuli(case)
+
+        def refit(c):
+            pr = slow_c15.params(c, self.retry)
+            last = max([x[0] for x in slow_c15.stimuli(c)] + [int(k) for k in c['ops']] + [0])
+            c['nticks'] = last + pr['tail']
+            for q in c['ports']:
+                if q['kind'] == 'src':
+                    q['chg'] = [x for x in q.get('chg', []) if x[0] < c['nticks']]
+            return c
+
+        for drop in ([st[len(st) // 2:], st[:len(st) // 2]] if len(st) > 1 else []) + [[x] for x in st]:
+            c = copy.deepcopy(case)
+            for k, kind, i in drop:
+                if kind == 'src':
+                    c['ports'][i]['chg'] = [x for x in c['ports'][i]['chg'] if x[0] != k]
+                else:
+                    c['ops'][str(k)] = [o for o in c['ops'][str(k)] if o[1] != i]
+            c['ops'] = {k: v for k, v in c['ops'].items() if v}
+            cands.append(refit(c))
+        for i, p in enumerate(case['ports']):
+            if not p['faulty']:
+                continue
+            if any(case['ports'][o[1]]['faulty'] and o[1] == i for v in case['ops'].values() for o in v):
+                c = copy.deepcopy(case)
+                c['ops'] = {k: [o for o in v if o[1] != i] for k, v in c['ops'].items()}
+                c['ops'] = {k: v for k, v in c['ops'].items() if v}
+                cands.append(refit(c))
+            for key in ('hb', 'wr'):
+                if p.get(key):
+                    c = copy.deepcopy(case)
+                    c['ports'][i][key] = {}
+                    cands.append(c)
+            if p.get('tail', {}).get('w'):
+                c = copy.deepcopy(case)
+                del c['ports'][i]['tail']['w']
+                cands.append(c)
+            keys = sorted(p.get('rd', {}), key=int)
+            if len(keys) > 1:
+                for half in (keys[:len(keys) // 2], keys[len(keys) // 2:]):
+                    c = copy.deepcopy(case)
+                    c['ports'][i]['rd'] = {k: p['rd'][k] for k in half}
+                    cands.append(c)
+            if p['kind'] == 'src' and p.get('chg'):
+                c = copy.deepcopy(case)
+                c['ports'][i]['chg'] = []
+                cands.append(c)
+        for c in cands:
+            if c != case and slow_c15.valid(c, self.retry):
+                yield c
+
+    def _run_slow(self, case, driver):
+        """Failing calls that take time, real update_loop: runs A (faults) and B (faulty ports absent); the oracle of
+        harness/slow_c15.py; the model replays run B only (it has no durations)."""
+        if not slow_c15.valid(case, self.retry):
+            return None, {'tags': ['slow:invalid-case-skipped'], 'key': None, 'observed': None}
+        full = slow_c15.expand(case)
+        runs = {}
+        for mode in ('A', 'B'):
+            try:
+                limit = case['nticks'] * case['tick'] / 1000.0 + 3600
+                runs[mode] = self.loop.run_until_complete(asyncio.wait_for(self._real(full, mode), timeout=limit))
+            except (Exception, asyncio.CancelledError) as e:
+                import traceback
+                where = traceback.format_exc().strip().splitlines()[-3:]
+                return (Failure('property' if mode == 'A' else 'correspondence',
+                                f'run {mode}: the hub raised {type(e).__name__}({e}) into the scenario: {where}'),
+                        {'tags': ['hub-raised'], 'key': None, 'observed': None})
+        fail = None
+        res = slow_c15.oracle(case, runs, self.retry)
+        if res is not None:
+            fail = Failure('property', 'slow failing calls: ' + res[0], real=res[1], model=res[2])
+        else:
+            fail = self._model(full, runs['B'], driver, 'B')
+        tags = slow_c15.tags(case, runs, self.retry)
+        v = slow_c15.view(case, runs['A'])
+        evs = {i: [(o, n) for o, n, _ in x] for i, x in v['ev'].items()}
+        kinds = sorted(t for t in tags if t.startswith(('slow:read-', 'slow:write-', 'slow:api-', 'slow:src-')))
+        key = repr((kinds, sorted(evs.items()))) if any(evs.values()) and kinds else None
+        observed = {'healthy_events': evs, 'api': runs['A']['api'], 'stalls': [(round(x[0] - runs['A']['t0'], 3), round(x[1] - runs['A']['t0'], 3), x[2], x[3])
+                                                                              for x in slow_c15.stalls(case, runs['A'])[:6]]}
+        return fail, {'tags': sorted(tags), 'key': key, 'observed': observed}
+
     def run_case(self, case, driver):
+        if case.get('slow'):
+            return self._run_slow(case, driver)
         runs = {}
         for mode in ('A', 'B', 'C'):
             try:
